@@ -72,8 +72,11 @@ pub fn sign_is_spec(M: usize, F: usize, A: usize) {
     );
 }
 
-/// [C03]/[C01] verify accepts the specification's token (every r, s in 1..n-1, leading zero bytes included) and returns the message
-pub fn verify_accepts_spec(M: usize, F: usize, A: usize) {
+/// [C03]/[C01] verify accepts the specification's token (every r, s in 1..n-1, leading zero bytes included) and returns the message.
+/// The specification has no low-S rule and ECDSA signatures come in twins (r, s) / (r, n - s) that verify together: BOTH forms are
+/// specification-conforming (the RustCrypto sibling emits the low one, this backend emits s as drawn). `twin = false`: the token as
+/// the specification's signer produces it (s0 any value in 1..n-1, low or high); `twin = true`: the same token with s = n - s0.
+pub fn verify_accepts_spec(M: usize, F: usize, A: usize, twin: bool) {
     let T = M + SIG;
     let d = any_scalar();
     let msgb: [u8; MX] = kani::any();
@@ -85,6 +88,11 @@ pub fn verify_accepts_spec(M: usize, F: usize, A: usize) {
     let mut tokb = [0u8; TX];
     let tok = &mut tokb[..T];
     vspec::v3::public_sign(&d, msg, b"", f, a, tok);
+    if twin {
+        let neg = vspec::v3::p384_neg_scalar(&tok[M + 48..]);
+        tok[M + 48..].copy_from_slice(&neg);
+    }
+    let high = vspec::v3::p384_is_high(&tok[M + 48..]);
     // the verifier's key arrives as the 49 specified bytes (k3.public), through the stable decoder
     let pkb = vspec::v3::p384_pk(&d);
     let _honest = sk_of(&d); // the key pair was honestly generated: its point is on the curve (model assumption made at derivation)
@@ -97,11 +105,13 @@ pub fn verify_accepts_spec(M: usize, F: usize, A: usize) {
     let ok = r.is_ok();
     let same = match r { Ok(m) => m == msg, Err(e) => { core::mem::forget(e); false } };
     vcheck_all!(
-        (ok, "[C03] every specification-conforming v3.public token is accepted under the signer's public key"),
+        (ok, "[C03] every specification-conforming v3.public token is accepted under the signer's public key, whichever of the two forms (r, s) / (r, n - s) its signer emitted (the specification has no low-S rule)"),
         (!ok || same, "[C01] verify returns exactly the signed message"),
     );
     // (one instance only: the extra satisfiability search costs about 4 min)
-    kani::cover!(M != 0 || tok[M] == 0, "spec signature whose r has a leading zero byte explored (searched in the |m| = 0 instance)");
+    kani::cover!(M != 0 || twin || tok[M] == 0, "spec signature whose r has a leading zero byte explored (searched in the |m| = 0 instance)");
+    kani::cover!(high, "token with s > n/2 (high-S form) explored");
+    kani::cover!(!high, "token with s <= n/2 (low-S form) explored");
 }
 
 /// [C01] library's own nonce() (empty for public), sign, verify with the derived key
@@ -132,7 +142,11 @@ pub fn roundtrip_own_nonce(M: usize, F: usize, A: usize) {
     );
 }
 
-/// [C02]/[C12] any single flipped bit of message or signature, any other public key, footer or assertion change => Err
+/// [C02]/[C12] any single flipped bit of message or signature, any other public key, footer or assertion change => Err.
+/// ECDSA malleability: the one other byte string that verifies for the same message is the twin (r, n - s0). It is never a
+/// single-bit neighbour of (r, s0): n is odd, so s0 and n - s0 differ in bit 0, and they differ in nothing else only for
+/// {s0, n - s0} = {(n-1)/2, (n+1)/2} = {..b9, ..ba}, which differ in two bits. The arithmetic is exact in the models, so the
+/// solver decides this itself — no assumption is made here. (The twin as a whole is accepted: verify_accepts_spec_twin_*.)
 pub fn verify_rejects_tamper(M: usize, F: usize, A: usize) {
     let T = M + SIG;
     let d = any_scalar();
@@ -411,8 +425,10 @@ macro_rules! inst {
 inst! {
     sign_is_spec_0_0_0 = sign_is_spec(0, 0, 0);
     sign_is_spec_3_2_1 = sign_is_spec(3, 2, 1);
-    verify_accepts_spec_0_0_0 = verify_accepts_spec(0, 0, 0);
-    verify_accepts_spec_3_2_1 = verify_accepts_spec(3, 2, 1);
+    verify_accepts_spec_0_0_0 = verify_accepts_spec(0, 0, 0, false);
+    verify_accepts_spec_3_2_1 = verify_accepts_spec(3, 2, 1, false);
+    verify_accepts_spec_twin_0_0_0 = verify_accepts_spec(0, 0, 0, true);
+    verify_accepts_spec_twin_3_2_1 = verify_accepts_spec(3, 2, 1, true);
     roundtrip_own_nonce_0_0_0 = roundtrip_own_nonce(0, 0, 0);
     roundtrip_own_nonce_1_1_1 = roundtrip_own_nonce(1, 1, 1);
     verify_rejects_tamper_0_0_0 = verify_rejects_tamper(0, 0, 0);
